@@ -50,6 +50,70 @@ def guarded(f, *a, secs=30, **k):
         signal.alarm(0)
 
 
+class Abort(BaseException):
+    """a non-Exception failure thrown on purpose from a user callable (the analogue of Ctrl-C in the middle of a loop)"""
+
+
+def rejected(f, secs=20):
+    """run a call that is EXPECTED to fail; returns ['exc', name] / ['ok'] (the value is dropped).  Catches BaseException too."""
+    signal.signal(signal.SIGALRM, _alarm)
+    signal.alarm(secs)
+    try:
+        f()
+        return ["ok"]
+    except Timeout:
+        TIMEOUTS[0] += 1
+        return ["exc", "Timeout"]
+    except BaseException as e:  # noqa
+        return ["exc", exn_name(e) if isinstance(e, Exception) else "Base:" + type(e).__name__]
+    finally:
+        signal.alarm(0)
+
+
+def dying_sha(seed, after):
+    """a cryptorandom SHA256 generator that fails (Abort) at its [after]-th primitive request"""
+    from cryptorandom.cryptorandom import SHA256
+    class Dying(SHA256):
+        left = after
+        def _tick(self):
+            self.left -= 1
+            if self.left < 0:
+                raise Abort()
+        def random(self, *a, **k): self._tick(); return SHA256.random(self, *a, **k)
+        def randint(self, *a, **k): self._tick(); return SHA256.randint(self, *a, **k)
+        def getrandbits(self, *a, **k): self._tick(); return SHA256.getrandbits(self, *a, **k)
+        def _randbelow(self, *a, **k): self._tick(); return SHA256._randbelow(self, *a, **k)
+        def randbelow_from_randbits(self, *a, **k): self._tick(); return SHA256.randbelow_from_randbits(self, *a, **k)
+    return Dying(seed)
+
+
+def fail_first(calls):
+    """FAILURE PATHS: before a case, make calls that the library must reject or that fail inside a user callable (every one of
+    them raises on the unchanged tree).  A rejected or aborted call must leave nothing behind -- no module-level switch, no
+    half-restored argument, no stale loop state -- so the case that follows is decided exactly as without them.
+    [calls] = list of (label, thunk); returns [[label, outcome...], ...] for the evidence / replay."""
+    watch = [(lab, th) for lab, th in calls if lab == "watch"]
+    before = [[a.copy() for a in th] for _, th in watch]
+    out = [[lab] + rejected(th) for lab, th in calls if lab != "watch"]
+    for (_, arrs), olds in zip(watch, before):
+        same = all(a.shape == b.shape and bool(np.all((a == b) | ((a != a) & (b != b)))) for a, b in zip(arrs, olds))
+        out.append(["args-intact", same])
+    return out
+
+
+def ff_args_modified(o):
+    """True when the failing calls made before a case left the caller's (watched) argument arrays modified"""
+    return any(e[0] == "args-intact" and e[1] is False for e in ((o or {}).get("ff") or []) if isinstance(e, list))
+
+
+def mark_ff(gen, every=3):
+    """mark every [every]-th case of a generator with 'ff' (its index): its run is preceded by failing calls"""
+    for i, c in enumerate(gen):
+        if isinstance(c, dict) and i % every == 1:
+            c["ff"] = i
+        yield c
+
+
 # ---- Coq term printers -------------------------------------------------------------------
 def cz(z):
     z = int(z)
